@@ -73,8 +73,9 @@ class GaussianART(BaseART):
             The dataset.
 
         """
+        # sigma_init may have been replaced through set_params since the last call
+        assert self.params["sigma_init"].shape == (X.shape[1],)
         if not hasattr(self, "dim_"):
-            assert self.params["sigma_init"].shape == (X.shape[1],)
             self.dim_ = X.shape[1]
         else:
             assert X.shape[1] == self.dim_
